@@ -29,6 +29,10 @@ SwitchReplies == {r \in AllReplies : r.start = readCur /\ r.cl \in {"right", "ab
 HdrReplies == {r \in AllReplies : r.start = readCur /\ r.cut = NoCut /\ r.cr = "honest" /\ r.st = "std"
                                 /\ r.cl \in (IF scn.size = 0 THEN {"right", "absent"} ELSE {"absent"})}
 
+\* whole-blob replies that announce the digest of what they serve: the stated-size family
+\* (C01_gen_size.cfg: size right / unknown / larger / smaller x scheme x access path x content)
+SizeReplies == {r \in HdrReplies : r.dh = "served"}
+
 RecRet == rets' = IF ret'.seq # ret.seq
                   THEN Append(rets, [op |-> ret'.op, n |-> ret'.n, err |-> ret'.err])
                   ELSE rets
@@ -48,6 +52,8 @@ GNext ==
   /\ \/ Open /\ UNCHANGED <<calls, replies>>
      \/ OpenFailed /\ UNCHANGED <<calls, replies>>
      \/ Failed /\ UNCHANGED <<calls, replies>>
+     \/ TarStop /\ UNCHANGED <<calls, replies>>
+     \/ TarWalkEnd /\ UNCHANGED <<calls, replies>>
      \/ \E k \in KS : Read(k) /\ calls' = Append(calls, [op |-> "read", k |-> k]) /\ UNCHANGED replies
      \/ Seek0 /\ calls' = Append(calls, [op |-> "seek0", k |-> 0]) /\ UNCHANGED replies
      \/ Tell /\ calls' = Append(calls, [op |-> "tell", k |-> 0]) /\ UNCHANGED replies
